@@ -350,6 +350,118 @@ def float_oracle(line, ans):
     return float_one(f[1], f[2], ins, back)
 
 
+FIX = {"i8": (-2**7, 2**7 - 1), "i16": (-2**15, 2**15 - 1), "i32": (-2**31, 2**31 - 1), "i64": (-2**63, 2**63 - 1),
+       "u8": (0, 2**8 - 1), "u16": (0, 2**16 - 1), "u32": (0, 2**32 - 1), "u64": (0, 2**64 - 1), "uint": (0, 2**64 - 1)}
+SUFFIX = {"i8": "i8", "i16": "i16", "i32": "i32", "i64": "i64", "u8": "u8", "u16": "u16", "u32": "u32", "u64": "u64", "uint": "u"}
+
+
+def gen_fix(rng):
+    k = rng.choice(list(FIX))
+    lo, hi = FIX[k]
+    v = rng.choice([lo, lo + 1, hi, hi - 1, 0, 1, -1 if lo < 0 else 2, rng.randint(lo, hi), rng.randint(max(lo, -300), min(hi, 300))])
+    return "inspx\tfix\t%s\t%d" % (k, v)
+
+
+def gen_litx(rng):
+    """an integer literal with a size suffix, around the limits of the suffix"""
+    k = rng.choice(list(FIX))
+    lo, hi = FIX[k]
+    v = rng.choice([hi, hi + 1, hi - 1, 0, 1, -lo, -lo + 1, rng.randint(0, hi), 2 * hi + 1, 2 * hi + 2, 2**64, 2**64 - 1, 2**63])
+    base = rng.choice([10, 10, 16, 2, 8, 12, 4])
+    letter = BASES[base][0]
+    digs = ""
+    n = v
+    while True:
+        digs = DIGITS36[n % base] + digs
+        n //= base
+        if n == 0:
+            break
+    if len(digs) > 3 and rng.random() < 0.3:
+        i = rng.randint(1, len(digs) - 1)
+        digs = digs[:i] + "_" + digs[i:]
+    if base == 16 and rng.random() < 0.3:
+        digs = digs.upper()
+    src = ("0" + letter if letter else "") + digs + SUFFIX[k]
+    if base == 16 and k in ("u8", "u16", "u32", "u64", "uint") and digs.lower().endswith(("e", "f", "b")):
+        pass
+    return "inspx\tlitx\t" + hx(src.encode())
+
+
+def gen_elem(rng):
+    r = rng.random()
+    if r < 0.25:
+        return "s:" + hx(gen_str(rng))
+    if r < 0.35:
+        while True:
+            c = gen_chr(rng)
+            if strlib.valid_scalar(c):
+                return "c:%d" % c
+    if r < 0.5:
+        return "y:" + hx(gen_sym(rng))
+    if r < 0.65:
+        return "i:%d" % gen_int(rng)
+    if r < 0.75:
+        while True:
+            k, b = gen_float(rng)
+            if k == "f":
+                v = struct.unpack("<d", struct.pack("<Q", int(b, 16)))[0]
+                if not math.isnan(v):
+                    return "f:" + b
+    if r < 0.85:
+        return rng.choice(["n", "t", "b"])
+    while True:
+        ln = gen_fix(rng).split("\t")
+        if int(ln[3]) != FIX[ln[2]][0] or ln[2].startswith("u"):
+            return "%s:%s" % (ln[2], ln[3])
+
+
+def gen_coll(rng):
+    n = rng.choice([0, 1, 2, 3, 4, 6])
+    els = [gen_elem(rng) for _ in range(n)]
+    return "inspx\tcoll\t%s\t%s" % (rng.choice(["list", "tuple"]), ";".join(els) if els else "-")
+
+
+LITX = re.compile(rb"^(?:0[xX](?P<x>[0-9a-fA-F]+(?:_[0-9a-fA-F]+)*?)|0[dD](?P<d>[0-9abAB]+(?:_[0-9abAB]+)*?)|0[oO](?P<o>[0-7]+(?:_[0-7]+)*)"
+                  rb"|0[qQ](?P<q>[0-3]+(?:_[0-3]+)*)|0[bB](?P<b>[01]+(?:_[01]+)*)|(?P<t>[0-9]+(?:_[0-9]+)*))(?P<suf>i8|i16|i32|i64|u8|u16|u32|u64|u)$")
+
+
+def aux_oracle(line, ans):
+    f = line.split("\t")
+    op = f[1]
+    if ans.startswith("panic") or ans.startswith("fatal"):
+        return f"{op}: the pipeline crashed: {ans[:200]}"
+    if op == "fix":
+        want = "%s:%s" % (f[2], f[3])
+        ins, back = ans[3:].split(" ", 1)
+        if back != want:
+            return (f"{f[2]} {f[3]} inspects to {unhx(ins).decode()!r} which evaluates to {back} "
+                    f"(inspect output does not evaluate back to the original value)")
+        return None
+    if op == "litx":
+        src = unhx(f[2])
+        m = LITX.match(src)
+        if not m:
+            return None
+        k = [g for g in ("x", "d", "o", "q", "b", "t") if m.group(g) is not None][0]
+        kind = {v: kk for kk, v in SUFFIX.items()}[m.group("suf").decode()]
+        val = positional(m.group(k).replace(b"_", b"").decode(), LIT_BASE[k])
+        lo, hi = FIX[kind]
+        if val > hi:
+            return None if ans == "err" else f"literal {src.decode()!r} is out of range for {kind} but evaluates to {ans!r}"
+        if ans != "ok %s:%d" % (kind, val):
+            return f"literal {src.decode()!r} evaluates to {ans!r}, its positional value is {kind}:{val}"
+        return None
+    if op == "coll":
+        ins, back = ans[3:].split(" ", 1)
+        want = "%s %s" % (f[2], f[3])
+        if back != want:
+            # NaN payloads / float zero signs are compared exactly; nothing else is normalised
+            return (f"{f[2]} [{f[3]}] inspects to {unhx(ins).decode('utf-8', 'backslashreplace')!r} which evaluates to "
+                    f"{back} (inspect output does not evaluate back to an equal collection)")
+        return None
+    return None
+
+
 def classify(line, a, b, pf):
     f = line.split("\t")
     op = f[1] + (":" + f[2] if f[1] in ("sweep", "batch") else "")
@@ -433,6 +545,32 @@ def sweep_lines(ctx):
     return lines
 
 
+def aux_stream(ctx, only=None):
+    """implementation-only round trips (no Lean model): fixed-width integers, suffixed literals, flat collections"""
+    rng = ctx.rng
+    if only is not None:
+        lines = only
+    else:
+        lines = [l for l in vlib.corpus_lines("C19") if l.startswith("inspx\t")]
+        n = ctx.n(400, 12000)
+        lines += [gen_fix(rng) for _ in range(n)] + [gen_litx(rng) for _ in range(n)] + [gen_coll(rng) for _ in range(n)]
+    ans = vlib.run_impl(lines)
+    bad = 0
+    seen = {}
+    for ln, a in zip(lines, ans):
+        op = ln.split("\t")[1]
+        ctx.case(ln, sample=None)
+        ctx.stat("op:aux:" + op)
+        pf = aux_oracle(ln, a)
+        if pf:
+            seen[op] = seen.get(op, 0) + 1
+            if seen[op] <= 4:
+                if ctx.violation("property-fails", {"line": ln}, pf):
+                    bad += 1
+    ctx.obligation(f"fixed-width integer / suffixed literal / collection round trips on {len(lines)} generated inputs "
+                   f"(implementation only)", bad == 0, "correspondence")
+
+
 def run(ctx):
     ctx.rule = ("values: byte strings (ASCII, 2-4-byte, combining, emoji, non-graphic U+0080..U+00FF, invalid bytes, escape and "
                 "interpolation starters), chars (all classes incl. non-scalar), symbol names (identifiers, keywords, `_` prefixes, "
@@ -449,6 +587,9 @@ def run(ctx):
     if ctx.replay:
         rp = json.load(open(ctx.replay))["input"]
         lines = [rp["line"]]
+        if lines[0].startswith("inspx\t"):
+            aux_stream(ctx, only=lines)
+            return
         if is_float_line(lines[0]):
             a = vlib.run_impl(lines)[0]
             pf = float_oracle(lines[0], a)
@@ -457,7 +598,8 @@ def run(ctx):
             return
     else:
         n = ctx.n(6000, 250000)
-        lines = [l for l in vlib.corpus_lines("C19") if not is_float_line(l)] + gen_lines(ctx.rng, n) + sweep_lines(ctx)
+        lines = [l for l in vlib.corpus_lines("C19") if not is_float_line(l) and not l.startswith("inspx\t")] + \
+            gen_lines(ctx.rng, n) + sweep_lines(ctx)
     for ln in lines:
         f = ln.split("\t")
         k = f[1] + (":" + f[2] if f[1] in ("sweep", "batch") else "")
@@ -466,7 +608,7 @@ def run(ctx):
                        label="inspect writers and lexer readers (String/Char/Symbol/Int)", timeout=3000)
     if not ctx.replay:
         # floats: implementation only (no Lean model of strconv); judged by the oracle
-        fl = [l for l in vlib.corpus_lines("C19") if is_float_line(l)]
+        fl = [l for l in vlib.corpus_lines("C19") if is_float_line(l) and not l.startswith("inspx\t")]
         by = {"f": [], "f64": [], "f32": []}
         for _ in range(ctx.n(3000, 120000)):
             k, b = gen_float(ctx.rng)
@@ -495,3 +637,4 @@ def run(ctx):
                     ctx.violation("property-fails", {"line": ln}, pf)
         ctx.obligation(f"float inspect round-trip on {len(fl)} generated batches of bit patterns (implementation, strconv assumed)",
                        bad == 0, "correspondence")
+        aux_stream(ctx)
